@@ -1,4 +1,356 @@
+/-
+C38 — the configuration watcher never loses the final file content.  Property theorems on the
+timed-event automaton of `ConfWatcher.run`.
+-/
 import MtxVerif.Model.C38
+
 namespace MtxVerif.C38
-theorem placeholder : True := trivial
+
+/-! #### helper facts -/
+
+theorem tooEarly_lt {s : St} {now : Nat} (h : tooEarly s now = true) :
+    ∃ l, s.lastCalled = some l ∧ now < l + minInterval := by
+  unfold tooEarly at h
+  cases hl : s.lastCalled with
+  | none => simp [hl] at h
+  | some l =>
+    simp only [hl, decide_eq_true_eq] at h
+    exact ⟨l, rfl, by omega⟩
+
+/-- for an existing file, with `prev` equal to what the path resolved to before the event, the
+loop's condition is exactly "this event reports a change" -/
+theorem relevant_eq_isChange (p : Nat) (e : Ev) (h : e.cur ≠ 0) : relevant p e = isChange p e := by
+  have h1 : (e.cur != 0) = true := by simp [h]
+  simp only [relevant, isChange, h1, Bool.true_and]
+  rw [Bool.or_comm]
+
+theorem notify_signals (s : St) (now : Nat) : (notify s now).signals = (now + additionalWait) :: s.signals := rfl
+
+theorem allReported_iff (ch sg : List Nat) :
+    allReported ch sg = true ↔ ∀ c ∈ ch, ∃ g ∈ sg, c ≤ g := by
+  simp [allReported, List.all_eq_true, List.any_eq_true]
+
+/-! ### The loop with the trailing-edge timer: every change is reported -/
+
+/-- Invariant: `tl` = time of the latest delivered event, `ch` = times of the changes so far. -/
+structure J (s : St) (tl : Nat) (ch : List Nat) : Prop where
+  /-- `previousWatchedPath` always is what the path resolved to at the latest event -/
+  prevEq : s.prev = s.lastCur
+  chLe : ∀ c ∈ ch, c ≤ tl
+  /-- an armed timer has not yet expired -/
+  pendGt : ∀ d, s.pending = some d → tl < d
+  /-- every change so far has been followed by a signal, or the timer is armed, or the file is gone -/
+  cov : s.lastCur = 0 ∨ s.pending.isSome = true ∨ ∀ c ∈ ch, ∃ g ∈ s.signals, c ≤ g
+
+theorem J_init (c0 : Nat) : J (initSt c0) 0 [] :=
+  ⟨rfl, by simp, by simp [initSt], Or.inr (Or.inr (by simp))⟩
+
+theorem preFire_lastCur (s : St) (t : Nat) : (preFire s t).lastCur = s.lastCur := by
+  unfold preFire
+  split
+  · split
+    · unfold fire; split <;> rfl
+    · rfl
+  · rfl
+
+/-- the timer arm: afterwards no armed timer is due at `t`, and coverage is kept -/
+theorem J_preFire (s : St) (tl : Nat) (ch : List Nat) (t : Nat) (h : J s tl ch) (ht : tl ≤ t) :
+    J (preFire s t) tl ch ∧ ∀ d, (preFire s t).pending = some d → t < d := by
+  unfold preFire
+  cases hp : s.pending with
+  | none => exact ⟨h, by simp [hp]⟩
+  | some d =>
+    simp only
+    by_cases hd : d ≤ t
+    · simp only [hd, if_true]
+      have htd := h.pendGt d hp
+      unfold fire
+      by_cases h0 : s.lastCur = 0
+      · simp only [h0, if_true]
+        exact ⟨⟨by simp [h0], h.chLe, by simp, Or.inl (by simp [h0])⟩, by simp⟩
+      · simp only [h0, if_false]
+        refine ⟨⟨rfl, h.chLe, by simp [notify], Or.inr (Or.inr ?_)⟩, by simp [notify]⟩
+        intro c hc
+        refine ⟨max d s.free + additionalWait, by simp [notify], ?_⟩
+        have := h.chLe c hc
+        have : d ≤ max d s.free := Nat.le_max_left _ _
+        omega
+    · simp only [hd, if_false]
+      exact ⟨h, fun d' hd' => by rw [hp] at hd'; cases hd'; omega⟩
+
+/-- the event arm -/
+theorem J_handleFix (s : St) (tl : Nat) (ch : List Nat) (e : Ev) (h : J s tl ch) (ht : tl ≤ e.t)
+    (hp : ∀ d, s.pending = some d → e.t < d) :
+    J (handleFix s e) e.t (if isChange s.lastCur e then ch ++ [e.t] else ch) ∧
+    (handleFix s e).lastCur = e.cur := by
+  have hch' : ∀ c ∈ (if isChange s.lastCur e then ch ++ [e.t] else ch), c ≤ e.t := by
+    intro c hc
+    split at hc
+    · rcases List.mem_append.mp hc with hc | hc
+      · have := h.chLe c hc; omega
+      · simp at hc; omega
+    · have := h.chLe c hc; omega
+  unfold handleFix
+  by_cases h0 : e.cur = 0
+  · simp only [h0, if_true]
+    exact ⟨⟨rfl, by simpa [h0] using hch', hp, Or.inl rfl⟩, by simp⟩
+  · simp only [h0, if_false]
+    by_cases hr : relevant s.prev e = true
+    · simp only [hr, if_true]
+      by_cases he : tooEarly s (max e.t s.free) = true
+      · simp only [he, if_true]
+        obtain ⟨l, hl, hlt⟩ := tooEarly_lt he
+        refine ⟨⟨rfl, hch', ?_, Or.inr (Or.inl ?_)⟩, by simp⟩
+        · intro d hd
+          cases hpd : s.pending with
+          | some d' =>
+            simp only [hpd] at hd
+            have hdd : d' = d := by simpa using hd
+            subst hdd
+            exact hp _ hpd
+          | none =>
+            simp only [hpd, hl, Option.map_some] at hd
+            cases hd
+            have : e.t ≤ max e.t s.free := Nat.le_max_left _ _
+            omega
+        · cases hpd : s.pending with
+          | some d' => simp
+          | none => simp [hl]
+      · simp only [he, Bool.false_eq_true, if_false]
+        refine ⟨⟨rfl, hch', by simp [notify], Or.inr (Or.inr ?_)⟩, by simp [notify]⟩
+        intro c hc
+        refine ⟨max e.t s.free + additionalWait, by simp [notify], ?_⟩
+        have := hch' c hc
+        have : e.t ≤ max e.t s.free := Nat.le_max_left _ _
+        omega
+    · simp only [hr, Bool.false_eq_true, if_false]
+      -- not relevant: the path still resolves to `prev`, and the event is no change
+      have hprev : e.cur = s.prev := by
+        simp only [relevant, Bool.or_eq_true, bne_iff_ne, ne_eq, not_or] at hr
+        exact Decidable.not_not.mp hr.1
+      have hnc : isChange s.lastCur e = false := by
+        rw [← h.prevEq, ← relevant_eq_isChange s.prev e h0]
+        simpa using hr
+      rw [hnc] at hch' ⊢
+      refine ⟨⟨by simpa using hprev.symm, hch', hp, ?_⟩, by simp⟩
+      rcases h.cov with hc | hc | hc
+      · exact absurd (by rw [hprev, h.prevEq, hc]) h0
+      · exact Or.inr (Or.inl hc)
+      · exact Or.inr (Or.inr hc)
+
+theorem J_stepFix (s : St) (tl : Nat) (ch : List Nat) (e : Ev) (h : J s tl ch) (ht : tl ≤ e.t) :
+    J (stepFix s e) e.t (if isChange s.lastCur e then ch ++ [e.t] else ch) ∧ (stepFix s e).lastCur = e.cur := by
+  obtain ⟨h1, h2⟩ := J_preFire s tl ch e.t h ht
+  have := J_handleFix (preFire s e.t) tl ch e h1 ht h2
+  rw [preFire_lastCur] at this
+  exact this
+
+theorem J_fold (evs : List Ev) : ∀ (s : St) (tl : Nat) (ch : List Nat), J s tl ch → sortedFrom tl evs = true →
+    ∃ tl', J (evs.foldl stepFix s) tl' (ch ++ changeTimes s.lastCur evs) ∧
+      (evs.foldl stepFix s).lastCur = finalCur s.lastCur evs := by
+  induction evs with
+  | nil => intro s tl ch h _; exact ⟨tl, by simpa [changeTimes] using h, rfl⟩
+  | cons e es ih =>
+    intro s tl ch h hs
+    simp only [sortedFrom, Bool.and_eq_true, decide_eq_true_eq] at hs
+    obtain ⟨h1, h2⟩ := J_stepFix s tl ch e h hs.1
+    obtain ⟨tl', h3, h4⟩ := ih (stepFix s e) e.t _ h1 hs.2
+    refine ⟨tl', ?_, ?_⟩
+    · simp only [List.foldl_cons, changeTimes]
+      rw [h2] at h3
+      split
+      · rename_i hc; simp only [hc, if_true] at h3; simpa [List.append_assoc] using h3
+      · rename_i hc; simp only [hc, Bool.false_eq_true, if_false] at h3; exact h3
+    · simp only [List.foldl_cons, finalCur]
+      rw [h4, h2]
+
+/-- **The property at full strength, for the loop with the trailing-edge timer.**  For every initial
+state of the path and every time-ordered history of delivered events — any timing of writes, deletions,
+re-creations, renames and symlink swaps — if the file exists at the end, every change is followed by a
+signal: the consumer's last load happens after the last change. -/
+theorem fix_reports_every_change (c0 : Nat) (evs : List Ev) (hs : sortedFrom 0 evs = true)
+    (hfin : finalCur c0 evs ≠ 0) :
+    allReported (changeTimes c0 evs) (runFix (initSt c0) evs).signals = true := by
+  obtain ⟨tl, hJ, hcur⟩ := J_fold evs (initSt c0) 0 [] (J_init c0) hs
+  simp only [List.nil_append] at hJ
+  have hc0 : (initSt c0).lastCur = c0 := rfl
+  rw [hc0] at hJ hcur
+  rw [allReported_iff]
+  unfold runFix finish
+  cases hp : (evs.foldl stepFix (initSt c0)).pending with
+  | none =>
+    simp only
+    rcases hJ.cov with h | h | h
+    · rw [hcur] at h; exact absurd h hfin
+    · simp [hp] at h
+    · exact h
+  | some d =>
+    simp only
+    have htd := hJ.pendGt d hp
+    unfold fire
+    have h0 : (evs.foldl stepFix (initSt c0)).lastCur ≠ 0 := by rw [hcur]; exact hfin
+    simp only [h0, if_false]
+    intro c hc
+    refine ⟨max d (evs.foldl stepFix (initSt c0)).free + additionalWait, by simp [notify], ?_⟩
+    have := hJ.chLe c hc
+    have : d ≤ max d (evs.foldl stepFix (initSt c0)).free := Nat.le_max_left _ _
+    omega
+
+/-! ### The loop as found: full statement, witness, partial theorem -/
+
+/-- The property as stated, for the loop as found. -/
+def cur_full : Prop :=
+  ∀ (c0 : Nat) (evs : List Ev), sortedFrom 0 evs = true → finalCur c0 evs ≠ 0 →
+    allReported (changeTimes c0 evs) (runCur (initSt c0) evs).signals = true
+
+/-- witness: writes at 0 ms and 500 ms — the second one is discarded and never reported -/
+theorem cur_witness : ¬ cur_full := by
+  intro h
+  have := h 1 [⟨0, 1, true, true⟩, ⟨500, 1, true, true⟩] (by decide) (by decide)
+  revert this
+  decide
+
+/-- Invariant of the loop as found while no event is discarded. -/
+structure K (s : St) (tl : Nat) (ch : List Nat) : Prop where
+  prevEq : s.prev = s.lastCur
+  chLe : ∀ c ∈ ch, c ≤ tl
+  freeLe : s.free ≤ tl + additionalWait
+  lastLe : ∀ l, s.lastCalled = some l → l ≤ tl + additionalWait
+  cov : s.lastCur = 0 ∨ ∀ c ∈ ch, ∃ g ∈ s.signals, c ≤ g
+
+theorem K_stepCur (s : St) (tl : Nat) (ch : List Nat) (e : Ev) (h : K s tl ch)
+    (ht : s.lastCalled = none ∧ s.free ≤ e.t ∧ tl ≤ e.t ∨ tl + minInterval + additionalWait ≤ e.t) :
+    K (stepCur s e) e.t (if isChange s.lastCur e then ch ++ [e.t] else ch) ∧ (stepCur s e).lastCur = e.cur := by
+  have hfree : s.free ≤ e.t := by
+    rcases ht with ht | ht
+    · exact ht.2.1
+    · have := h.freeLe; simp only [minInterval, additionalWait] at *; omega
+  have htl : tl ≤ e.t := by
+    rcases ht with ht | ht
+    · exact ht.2.2
+    · omega
+  have hnow : max e.t s.free = e.t := Nat.max_eq_left hfree
+  have hne : tooEarly s e.t = false := by
+    unfold tooEarly
+    cases hl : s.lastCalled with
+    | none => rfl
+    | some l =>
+      rcases ht with ht | ht
+      · rw [hl] at ht; cases ht.1
+      · have hll := h.lastLe l hl
+        have hge : ¬ (e.t - l < minInterval) := by
+          simp only [minInterval, additionalWait] at hll ht ⊢; omega
+        simp [hge]
+  have hch' : ∀ c ∈ (if isChange s.lastCur e then ch ++ [e.t] else ch), c ≤ e.t := by
+    intro c hc
+    split at hc
+    · rcases List.mem_append.mp hc with hc | hc
+      · have := h.chLe c hc; omega
+      · simp at hc; omega
+    · have := h.chLe c hc; omega
+  unfold stepCur
+  simp only [hnow, hne, Bool.false_eq_true, if_false]
+  by_cases h0 : e.cur = 0
+  · simp only [h0, if_true]
+    refine ⟨⟨rfl, by simpa [h0] using hch', by simp only; omega, ?_, Or.inl rfl⟩, by simp⟩
+    intro l hl
+    rcases ht with ht | ht
+    · simp only at hl; rw [ht.1] at hl; cases hl
+    · have := h.lastLe l hl; omega
+  · simp only [h0, if_false]
+    by_cases hr : relevant s.prev e = true
+    · simp only [hr, if_true]
+      refine ⟨⟨rfl, hch', by simp [notify], by simp [notify], Or.inr ?_⟩, by simp [notify]⟩
+      intro c hc
+      refine ⟨e.t + additionalWait, by simp [notify], ?_⟩
+      have := hch' c hc
+      omega
+    · simp only [hr, Bool.false_eq_true, if_false]
+      have hprev : e.cur = s.prev := by
+        simp only [relevant, Bool.or_eq_true, bne_iff_ne, ne_eq, not_or] at hr
+        exact Decidable.not_not.mp hr.1
+      have hnc : isChange s.lastCur e = false := by
+        rw [← h.prevEq, ← relevant_eq_isChange s.prev e h0]
+        simpa using hr
+      rw [hnc] at hch' ⊢
+      refine ⟨⟨by simpa using hprev.symm, hch', by simp only; omega, ?_, ?_⟩, by simp⟩
+      · intro l hl
+        rcases ht with ht | ht
+        · simp only at hl; rw [ht.1] at hl; cases hl
+        · have := h.lastLe l hl; omega
+      · rcases h.cov with hc | hc
+        · exact absurd (by rw [hprev, h.prevEq, hc]) h0
+        · exact Or.inr hc
+
+theorem K_fold (evs : List Ev) : ∀ (s : St) (tl : Nat) (ch : List Nat) (prevT : Option Nat), K s tl ch →
+    (match prevT with
+      | none => s.lastCalled = none ∧ s.free = 0 ∧ tl = 0
+      | some t => t = tl) →
+    spacedFrom prevT evs = true →
+    ∃ tl', K (evs.foldl stepCur s) tl' (ch ++ changeTimes s.lastCur evs) ∧
+      (evs.foldl stepCur s).lastCur = finalCur s.lastCur evs := by
+  induction evs with
+  | nil => intro s tl ch _ h _ _; exact ⟨tl, by simpa [changeTimes] using h, rfl⟩
+  | cons e es ih =>
+    intro s tl ch prevT h hpt hs
+    have hcond : s.lastCalled = none ∧ s.free ≤ e.t ∧ tl ≤ e.t ∨ tl + minInterval + additionalWait ≤ e.t := by
+      cases prevT with
+      | none => simp only at hpt; exact Or.inl ⟨hpt.1, by omega, by omega⟩
+      | some t =>
+        simp only at hpt
+        simp only [spacedFrom, Bool.and_eq_true, decide_eq_true_eq] at hs
+        exact Or.inr (by omega)
+    have hrest : spacedFrom (some e.t) es = true := by
+      cases prevT with
+      | none => simpa [spacedFrom] using hs
+      | some t => simp only [spacedFrom, Bool.and_eq_true] at hs; exact hs.2
+    obtain ⟨h1, h2⟩ := K_stepCur s tl ch e h hcond
+    obtain ⟨tl', h3, h4⟩ := ih (stepCur s e) e.t _ (some e.t) h1 rfl hrest
+    refine ⟨tl', ?_, ?_⟩
+    · simp only [List.foldl_cons, changeTimes]
+      rw [h2] at h3
+      split
+      · rename_i hc; simp only [hc, if_true] at h3; simpa [List.append_assoc] using h3
+      · rename_i hc; simp only [hc, Bool.false_eq_true, if_false] at h3; exact h3
+    · simp only [List.foldl_cons, finalCur]
+      rw [h4, h2]
+
+/-- The loop as found reports every change when consecutive events are more than
+`minInterval + additionalWait` (1010 ms) apart — exactly the regime `TestWriteMultipleTimes`-style
+tests exercise. -/
+theorem cur_partial (c0 : Nat) (evs : List Ev) (hs : spacedFrom none evs = true) (hfin : finalCur c0 evs ≠ 0) :
+    allReported (changeTimes c0 evs) (runCur (initSt c0) evs).signals = true := by
+  have hK : K (initSt c0) 0 [] := ⟨rfl, by simp, by simp [initSt], by simp [initSt], Or.inr (by simp)⟩
+  obtain ⟨tl, hJ, hcur⟩ := K_fold evs (initSt c0) 0 [] none hK ⟨rfl, rfl, rfl⟩ hs
+  simp only [List.nil_append] at hJ
+  have hc0 : (initSt c0).lastCur = c0 := rfl
+  rw [hc0] at hJ hcur
+  rw [allReported_iff]
+  unfold runCur
+  rcases hJ.cov with h | h
+  · rw [hcur] at h; exact absurd h hfin
+  · exact h
+
+/-- A discarded path switch (symlink swap inside the window) is recovered by the next event that is
+handled, because `previousWatchedPath` is stale — a discarded *write* is not. -/
+theorem cur_recovers_switch :
+    allReported (changeTimes 1 [⟨0, 1, true, true⟩, ⟨500, 2, false, true⟩, ⟨1600, 2, false, false⟩])
+      (runCur (initSt 1) [⟨0, 1, true, true⟩, ⟨500, 2, false, true⟩, ⟨1600, 2, false, false⟩]).signals = true ∧
+    allReported (changeTimes 1 [⟨0, 1, true, true⟩, ⟨500, 1, true, true⟩, ⟨1600, 1, false, false⟩])
+      (runCur (initSt 1) [⟨0, 1, true, true⟩, ⟨500, 1, true, true⟩, ⟨1600, 1, false, false⟩]).signals = false := by
+  decide
+
+/-! ### Non-vacuity -/
+
+/-- the fixed loop on the witness history: signals at 10 ms and at 1020 ms -/
+example : (runFix (initSt 1) [⟨0, 1, true, true⟩, ⟨500, 1, true, true⟩]).signals = [1020, 10] := by decide
+
+/-- delete, then re-create inside the window: reported by the timer -/
+example : (runFix (initSt 1) [⟨0, 1, true, true⟩, ⟨300, 0, false, false⟩, ⟨600, 1, true, true⟩]).signals = [1020, 10] ∧
+    sortedFrom 0 [⟨0, 1, true, true⟩, ⟨300, 0, false, false⟩, ⟨600, 1, true, true⟩] = true ∧
+    finalCur 1 [⟨0, 1, true, true⟩, ⟨300, 0, false, false⟩, ⟨600, 1, true, true⟩] ≠ 0 := by decide
+
+example : spacedFrom none [⟨0, 1, true, true⟩, ⟨1010, 1, true, true⟩, ⟨2500, 0, false, false⟩, ⟨4000, 1, true, true⟩] = true := by
+  decide
+
 end MtxVerif.C38
